@@ -302,3 +302,7 @@ _extend("C17", "no absolute threshold in MATH refusals", "Also decides the same 
                "measurements are expressed (recorded finding).")
 _extend("C13", "raw/quoted qualifier analysis of keys", "Also decides that keys enumerated with vnaproperty_keys are quoted before they are spliced into a descriptor.")
 _extend("C07", "assignment-clamp detection for the printf precision", "Also decides that the configured precision is not capped by an assignment in front of the conversion.")
+_extend("C15", "element-size agreement of block operations; rows/columns argument kinds", "Also decides that vacated cells are cleared with the element size of the "
+               "matrix they belong to and that shape checks receive rows and columns in that order.")
+_extend("C05", "unconditional z0 transfer in the destination set-up; element-size agreement", "Also decides that the copy of the reference impedances to the "
+               "destination depends on the per-frequency flag only.")
